@@ -79,9 +79,13 @@ def set_source(code, filename=DEFAULT_STUDENT_FILENAME, sections=False,
     if report.submission is None:
         report.contextualize(Submission({filename: code}, filename, code))
     else:
-        backup = Substitution(report.submission.main_code, report.submission.main_file)
+        backup = Substitution(report.submission.main_code, report.submission.main_file,
+                              report.submission.line_offsets)
         report[TOOL_NAME]['substitutions'].append(backup)
         report.submission.replace_main(code, filename)
+        # The new text is a whole file: its lines are not those of the section
+        # that may have been the current code so far
+        report.submission.clear_line_offsets()
 
     report[TOOL_NAME]['independent'] = independent
     report[TOOL_NAME]['success'] = True
@@ -107,6 +111,8 @@ def restore_code(report=MAIN_REPORT):
     if TOOL_NAME in report:
         old_submission = report[TOOL_NAME]['substitutions'].pop()
         report.submission.replace_main(old_submission.code, old_submission.filename)
+        report.submission.clear_line_offsets()
+        report.submission.line_offsets.update(old_submission.line_offsets)
         verify(report=report)
 
 
